@@ -74,10 +74,8 @@ fn record_stats(ctx: &mut Ctx, st: &crate::sched::ExploreStats, bound: Option<u3
     ctx.rep.count("sched.choice_points", st.choice_points);
     ctx.rep.count("sched.branching_points", st.branching_points);
     ctx.rep.set_max("sched.longest_schedule_max", st.max_trace as u64);
-    let mut cum = 0u64;
     for (p, n) in st.by_preemptions.iter().enumerate() {
-        cum += n;
-        ctx.rep.count(&format!("sched.{label}.schedules_with_preemptions<={p}"), cum);
+        ctx.rep.count(&format!("sched.{label}.schedules_with_{p}_preemptions"), *n);
     }
     if st.capped {
         ctx.rep.count("sched.capped_explorations", 1);
@@ -355,7 +353,6 @@ pub fn oligo_explore(ctx: &mut Ctx, case: &OligoCase, bound: Option<u32>, which:
     for a in &assignments {
         ctx.rep.outcomes.insert(format!("{label}:{a}"));
     }
-    ctx.rep.count(&format!("sched.{label}.distinct_assignments"), 0);
     for (key, desc, choices) in found {
         viol(ctx, &key, choices.len() + 1000 * choices.iter().filter(|&&c| c != 0).count(), desc, case.argv(kind, &choices));
     }
@@ -365,16 +362,22 @@ fn oligo_cases(ctx: &Ctx) -> Vec<(OligoCase, Option<u32>, String)> {
     // records with pairwise different rows
     let recs: Vec<Vec<u8>> = vec![b"AAAC".to_vec(), b"CCG".to_vec(), b"ACGTT".to_vec(), b"GGA".to_vec()];
     let mut v = Vec::new();
-    for (n, r, k, header, bound) in [
+    let mut table = vec![
         (2usize, 2usize, 1usize, false, None),
         (2, 3, 1, false, None),
         (2, 3, 2, true, None),
         (2, 4, 1, true, None),
-        (3, 2, 1, false, Some(ctx.pick(4, 7))),
-        (3, 3, 1, true, Some(ctx.pick(4, 6))),
-        (3, 4, 2, false, Some(ctx.pick(3, 5))),
-        (4, 3, 1, false, Some(ctx.pick(2, 4))),
-    ] {
+        (3, 2, 1, false, None),
+        (3, 3, 1, true, if ctx.thorough() { None } else { Some(4) }),
+        (3, 4, 2, false, if ctx.thorough() { None } else { Some(3) }),
+        (4, 3, 1, false, Some(ctx.pick(2, 5))),
+    ];
+    if ctx.thorough() {
+        table.push((2, 4, 2, false, None));
+        table.push((4, 2, 1, false, Some(5)));
+        table.push((4, 4, 1, true, Some(3)));
+    }
+    for (n, r, k, header, bound) in table {
         v.push((
             OligoCase {
                 threads: n,
@@ -947,9 +950,9 @@ pub fn c10_sched(ctx: &mut Ctx) {
         (2usize, vec![r1.clone(), r1.clone()], 0usize, None, "N2R2w0"),
         (2, vec![r1.clone(), r2.clone()], 3, if ctx.thorough() { None } else { Some(4) }, "N2R2w3"),
         (2, vec![r1.clone(), r4.clone()], 3, if ctx.thorough() { None } else { Some(4) }, "N2R2w3rc"),
-        (2, vec![r1.clone(), r2.clone(), r3.clone()], 3, Some(ctx.pick(4, 6)), "N2R3w3"),
-        (3, vec![r1.clone(), r2.clone(), r1.clone()], 0, Some(ctx.pick(3, 5)), "N3R3w0"),
-        (3, vec![r1.clone(), r4.clone(), r2.clone()], 3, Some(ctx.pick(3, 4)), "N3R3w3rc"),
+        (2, vec![r1.clone(), r2.clone(), r3.clone()], 3, if ctx.thorough() { None } else { Some(4) }, "N2R3w3"),
+        (3, vec![r1.clone(), r2.clone(), r1.clone()], 0, Some(ctx.pick(3, 6)), "N3R3w0"),
+        (3, vec![r1.clone(), r4.clone(), r2.clone()], 3, Some(ctx.pick(3, 5)), "N3R3w3rc"),
     ] {
         let case = MinCase {
             threads,
